@@ -3,8 +3,10 @@
 package h4chain_test
 
 import (
+	"bytes"
 	"crypto/ed25519"
 	"fmt"
+	"sort"
 
 	"github.com/New-JAMneration/JAM-Protocol/internal/keystore"
 	"github.com/New-JAMneration/JAM-Protocol/internal/safrole"
@@ -92,6 +94,9 @@ type genesis struct {
 	svcIDs []types.ServiceID
 	// preimages that are solicited but not yet provided at genesis: service -> blobs
 	solicited map[types.ServiceID][][]byte
+	// tickets placed in the genesis accumulator: (validator, attempt) and identifier
+	prefill    [][2]int
+	prefillIDs []types.TicketID
 }
 
 func validatorsData() types.ValidatorsData {
@@ -127,6 +132,22 @@ func mkGenesis(t *sim.Tape) *genesis {
 	st.Gamma.GammaZ = z
 	st.Gamma.GammaS.Keys = safrole.FallbackKeySequence(st.Eta[2], st.Kappa)
 	st.Gamma.GammaA = types.TicketsAccumulator{}
+	// some histories start with a (nearly) full ticket accumulator: the states in which a new ticket displaces an
+	// old one, and in which the next epoch is sealed with tickets, are otherwise rare
+	if nPre := []int{0, 0, 0, 4, 9, 11, 12, 12}[t.Choose(8, "prefill_accumulator")]; nPre > 0 {
+		perm := t.Perm(types.ValidatorsCount*types.TicketsPerValidator, "prefill_perm")
+		for _, x := range perm[:nPre] {
+			vi, attempt := x/types.TicketsPerValidator, x%types.TicketsPerValidator
+			ctx := append(append([]byte(types.JamTicketSeal), st.Eta[2][:]...), byte(attempt))
+			var tb types.TicketBody
+			copy(tb.ID[:], vrf.RingOutput(validators[vi].pub.Bandersnatch[:], ctx))
+			tb.Attempt = types.TicketAttempt(attempt)
+			st.Gamma.GammaA = append(st.Gamma.GammaA, tb)
+			g.prefill = append(g.prefill, [2]int{vi, attempt})
+			g.prefillIDs = append(g.prefillIDs, tb.ID)
+		}
+		sort.Slice(st.Gamma.GammaA, func(i, j int) bool { return bytes.Compare(st.Gamma.GammaA[i].ID[:], st.Gamma.GammaA[j].ID[:]) < 0 })
+	}
 	st.Alpha = make(types.AuthPools, types.CoresCount)
 	st.Varphi = make(types.AuthQueues, types.CoresCount)
 	for c := 0; c < types.CoresCount; c++ {
